@@ -41,6 +41,42 @@ func ruleAlignWidth(c *Ctx) {
 		b, ok := v.Type().Underlying().(*types.Basic)
 		return ok && b.Info()&types.IsInteger != 0
 	}
+	// width functions: module functions with an integer result that depends on the account's name and on the
+	// Virtual kind - directly, or because it is computed from the result of another width function
+	widthFn := map[*ssa.Function]bool{}
+	for changed := true; changed; {
+		changed = false
+		for _, g := range c.P.ModuleFuncs() {
+			if widthFn[g] || g.Blocks == nil || g.Signature.Results().Len() == 0 {
+				continue
+			}
+			for _, b := range g.Blocks {
+				ret, ok := lastInstr(b).(*ssa.Return)
+				if !ok {
+					continue
+				}
+				for _, rv := range ret.Results {
+					if !isInt(rv) {
+						continue
+					}
+					sl := map[ssa.Value]bool{}
+					sliceWithControl(rv, 0, sl)
+					viaWidth := false
+					for v := range sl {
+						if call, ok := v.(*ssa.Call); ok {
+							if cal := call.Call.StaticCallee(); cal != nil && widthFn[cal] {
+								viaWidth = true
+							}
+						}
+					}
+					if (readsField(sl, "ast.Account", "Name") && readsField(sl, "ast.Posting", "Virtual")) || viaWidth {
+						widthFn[g] = true
+						changed = true
+					}
+				}
+			}
+		}
+	}
 	n := 0
 	judge := func(f *ssa.Function, operand ssa.Value, pos token.Pos, what string) {
 		if !isInt(operand) {
@@ -55,7 +91,15 @@ func ruleAlignWidth(c *Ctx) {
 			return
 		}
 		n++
-		c.check(readsField(sl, "ast.Posting", "Virtual"), "C05-WIDTH", funcName(f), "an account width that is "+what+" counts the brackets of a virtual posting", pos,
+		viaWidth := false
+		for v := range sl {
+			if call, ok := v.(*ssa.Call); ok {
+				if cal := call.Call.StaticCallee(); cal != nil && widthFn[cal] {
+					viaWidth = true
+				}
+			}
+		}
+		c.check(readsField(sl, "ast.Posting", "Virtual") || viaWidth, "C05-WIDTH", funcName(f), "an account width that is "+what+" counts the brackets of a virtual posting", pos,
 			"the compared number depends on the account's name and on the posting's Virtual kind",
 			"a number derived from an account's name is "+what+" without the posting's Virtual kind having a say: the brackets of a virtual posting ((a:b), [a:b]) are not counted when the widest account is chosen, so a virtual account as long as the longest real one gets its amount behind the common column")
 	}
